@@ -16,6 +16,7 @@ from .common import Check
 
 
 def judge(rec, opts):
+    replay.LOOP_CAP = 5000 if str(rec.get("focus", "")).startswith("confused") else None
     out = []
     if not opts.get("compare"):
         # the same data handed over through another layer (argument, matter, template
